@@ -218,6 +218,8 @@ LAYOUTS = {
     # wildcard imports that do not run: type-guarded in the package's __init__, or written in the stub of the __init__ only
     "pkg-guarded-wildcard": ({"s1/pkg/__init__.py": "G", "s1/pkg/sub.py": "1"}, "pkg"),
     "stub-wildcard": ({"s1/pkg/__init__.py": "i", "s1/pkg/__init__.pyi": "W", "s1/pkg/sub.py": "1"}, "pkg"),
+    # a name imported through a re-export chain (user -> package __init__ -> private module) and used in annotations, defaults, values and bases
+    "pkg-reexport-chain": ({"s1/pkg/__init__.py": "R", "s1/pkg/_impl.py": "T", "s1/pkg/user.py": "U", "s1/pkg/m.py": "1"}, "pkg"),
     "pkg-nested": ({"s1/pkg/__init__.py": "I", "s1/pkg/sub/__init__.py": "i", "s1/pkg/sub/deep.py": "1", "s1/pkg/two.py": "2"}, "pkg"),
     "pkg-2nd-path": ({"s1/other.py": "2", "s2/pkg/__init__.py": "i", "s2/pkg/m.py": "1"}, "pkg"),
     "stub-beside": ({"s1/mod.py": "1", "s1/mod.pyi": "1"}, "mod"),
@@ -252,7 +254,9 @@ def files_for(container, f1, f2):
         src1, src2 = source_for(f1, None), (source_for(f2, None) if f2 else "twov = 1\n")
         files = {k: {"1": src1, "2": src2, "i": "", "I": '"""Init doc."""\nfrom . import *\n',
                      "G": "from typing import TYPE_CHECKING\nif TYPE_CHECKING:\n    from .sub import *\n    class GuardedClass:\n        def gm(self): ...\n    def guarded_func(): ...\n    guarded_attr: int = 0\n",
-                     "W": "from .sub import *\n"}[v] for k, v in LAYOUTS[container][0].items()}
+                     "W": "from .sub import *\n",
+                     "R": "from pkg._impl import Thing\nfrom pkg._impl import make as build\n", "T": "class Thing:\n    tv = 1\ndef make(a=1):\n    return Thing()\n",
+                     "U": "from pkg import Thing, build\nfrom pkg import Thing as Renamed\nuv: Thing = build()\ndef uf(p: Thing = Renamed, q=build) -> Renamed: ...\nclass UC(Thing):\n    ua: Renamed = build(a=2)\n"}[v] for k, v in LAYOUTS[container][0].items()}
         return files, LAYOUTS[container][1], (LAYOUTS[container][2] if len(LAYOUTS[container]) > 2 else ["s1", "s2"])
     raise AssertionError(container)
 
